@@ -607,6 +607,13 @@ pub fn normalize(ty: &Ty, v: &Val) -> Val {
 			},
 			_ => v.clone(),
 		},
+		// one spelling for sequences of zero-width elements, whichever side built them
+		(Ty::Seq { elem, .. } | Ty::Array(elem, _), Val::Seq(items)) if elem.zero_width() => Val::Repeat(
+			items.len() as u64,
+			Box::new(items.first().map(|x| normalize(elem, x)).unwrap_or_else(|| elem.default_val())),
+		),
+		(Ty::Seq { elem, .. } | Ty::Array(elem, _), Val::Repeat(n, x)) =>
+			Val::Repeat(*n, Box::new(if *n == 0 { elem.default_val() } else { normalize(elem, x) })),
 		(Ty::Seq { elem, .. }, Val::Seq(items)) =>
 			Val::Seq(items.iter().map(|x| normalize(elem, x)).collect()),
 		(Ty::Array(elem, _), Val::Seq(items)) =>
